@@ -23,6 +23,7 @@ let dispatchers : (string list -> string option) list = [
   C_cubic.dispatch;
   C_wire.dispatch;
   C_vsock.dispatch;
+  C_pair.dispatch;
   C_mtu.dispatch;
   C_disp.dispatch;
 ]
